@@ -517,6 +517,18 @@ def apalache(ctx, module, obligations, what, cinit=None):
     ctx.leg('apalache-' + module, result=what, obligations=res)
 
 
+def states_for(states, histories):
+    """the part of a {json(history prefix): state} table that replaying `histories` needs (workers get their share only:
+    the whole table, pickled once per worker, is what exhausts memory in the thorough tier)"""
+    out = {}
+    for h in histories:
+        for i in range(len(h)):
+            k = json.dumps(h[:i + 1])
+            if k in states:
+                out[k] = states[k]
+    return out
+
+
 def pmap(fn, jobs, workers=None):
     """Parallel map over forked NON-daemonic worker processes (the code under test creates its own
     multiprocessing pools, which daemonic pool workers are not allowed to do)."""
